@@ -191,3 +191,11 @@ def chain_cmp_expr(x, a, b):
 
 def chain_mixed_expr(x, a, b):
     return x - a if a <= x < b else 0.0
+
+
+def first_of(series):
+    return series.iloc[0] * 2
+
+
+def power_xy(x, y, k):
+    return k * x**2 * y
